@@ -93,6 +93,24 @@ def read_via(route, lines, mode, tmp):
             return {"init_exc": exc_name(e)}
         out = {"records": [], "iter_exc": None}
         try:
+            if route == "derived":
+                # an output header is derived from the reader with ANOTHER contig ranking (MafHeader.from_reader(reader,
+                # contigs=...)) before the reader is iterated: the file is still checked against its own declaration
+                from maflib.header import MafHeader
+                body = [l for l in lines if not l.startswith("#")]
+                names = body[0].split("\t") if body else []
+                k = names.index("Chromosome") if "Chromosome" in names else None
+                seen = []
+                for l in body[1:]:
+                    f = l.split("\t")
+                    if k is not None and k < len(f) and f[k] not in seen:
+                        seen.append(f[k])
+                own = reader.header().contigs() or []
+                other = list(reversed(own)) if len(own) > 1 else list(reversed(sorted(seen))) or ["1"]
+                try:
+                    MafHeader.from_reader(reader, contigs=other)
+                except Exception:  # noqa  (deriving may be refused; the reader is what is under test)
+                    pass
             it = SortOrderEnforcingIterator(reader, reader.header().sort_order()) if route == "iterator" else reader
             if route.startswith("split"):
                 # two-stage consumption of ONE iterator: k records taken with next(), the rest by a for loop over the same
@@ -176,8 +194,8 @@ def gen_file(rng, strangers):
     """One generated file: (lines, mode, records in file order, order, contigs, typed, shape)."""
     typed = rng.random() < 0.5
     order = rng.choice(["Coordinate", "BarcodesAndCoordinate", "Coordinate", "BarcodesAndCoordinate", "Coordinate", "BarcodesAndCoordinate", "Unsorted", "Unknown", None])
-    contigs = rng.choice([None, ["1", "2", "10", "X"], ["chr1", "chr2", "chr10"], ["10", "2", "X", "1"], ["2", "10", "1", "X"], SC.LONG, SC.LONG_CHR])
-    chroms = contigs or rng.choice([["1", "2", "10", "X"], ["chr1", "chr2", "chr10"]])
+    contigs = rng.choice([None, ["1", "2", "10", "X"], ["chr1", "chr2", "chr10"], ["10", "2", "X", "1"], ["2", "10", "1", "X"], SC.LONG, SC.LONG_CHR, ["0", "1", "2"], ["2", "0", "1"]])
+    chroms = contigs or rng.choice([["1", "2", "10", "X"], ["chr1", "chr2", "chr10"], ["0", "1", "X"]])     # (a chromosome named 0 is the integer 0 under a typed scheme)
     recs = gen_recs(rng, rng.randrange(0, 7), chroms)
     # records that differ from another one in exactly one component of the key (every component in turn)
     for _k in range(rng.choice([0, 0, 1, 2]) if recs else 0):
@@ -253,7 +271,7 @@ def route_cases(ctx, out):
     cases = []
     for _ in range(ctx.scale(220, 2500)):
         lines, mode, recs, order, contigs, typed, shape = gen_file(rng, True)
-        route = rng.choice(READ_ROUTES + ["split", "split"])
+        route = rng.choice(READ_ROUTES + ["split", "split", "derived", "derived"])
         if route == "split":
             try:
                 d0 = first_descent(recs, order, contigs or []) if order in ("Coordinate", "BarcodesAndCoordinate") else None
@@ -296,7 +314,7 @@ def run(ctx):
         typed = rng.random() < 0.5
         order = rng.choice(["Coordinate", "BarcodesAndCoordinate", "Coordinate", "BarcodesAndCoordinate", "Unsorted", "Unknown", None])
         contigs = rng.choice([None, ["1", "2", "10", "X"], ["chr1", "chr2", "chr10"], ["10", "2", "X", "1"], SC.LONG, SC.LONG_CHR])
-        chroms = contigs or rng.choice([["1", "2", "10", "X"], ["chr1", "chr2", "chr10"]])
+        chroms = contigs or rng.choice([["1", "2", "10", "X"], ["chr1", "chr2", "chr10"], ["0", "1", "X"]])     # (a chromosome named 0 is the integer 0 under a typed scheme)
         n = rng.randrange(0, 7)
         recs = gen_recs(rng, n, chroms)
         for r in recs:
